@@ -53,6 +53,14 @@ claim("C08", "typestate and must-pass-through rules over all paths (event words)
       "enumerated by tests; the paths of these seven functions can. Not decided: that the flushed prefix decodes to the data written (ring-buffer arithmetic, coder correctness).",
       TRUST, "DESIGN.md §4 C08, §3.5")
 
+claim("C04", "guard-obligation catalogue located by operand roles in the SSA + consequence walk of the failing edge; error-provenance dataflow",
+      "Decides that each of ~45 verification steps of the xz reader (Appendix A: magic, CRC coverage, reserved bits, ids, flags agreement, backward size, record count "
+      "before allocation, record comparison, paddings, size bounds, check comparison without aliasing, uvarint limits, clean EOF only behind the checks) is present with "
+      "the EXACT relation and that on its failing edge every path returns a non-EOF error; that no validation result is dropped; that end of input inside a structure "
+      "is never taken for end of stream. Each check is 'an independent line that can be deleted without any test failing' - here each is one obligation. "
+      "Not decided: that CRC/SHA detect a particular corruption; size consistency inside the LZMA2 layer for check-less streams.",
+      TRUST + "Catalogue frozen in ob_xz.go.", "DESIGN.md §4 C04, Appendix A")
+
 NOT_YET = "not yet decided: rules under construction (DESIGN.md §10); no claim is made"
 
 def main():
